@@ -1148,40 +1148,42 @@ Proof.
   - exact (fb_mono r F a Hr HF Ha t).
 Qed.
 
-(** * The frame duration used for the MPD ([RepData.sampleDur()]) *)
+(** * The frame duration used for the MPD *)
 
-(** C03_timeline for the MPD: under the visible hypothesis that [RepData.sampleDur()] is the frame
-    duration [F] of the representation. *)
-Lemma mpd_audio_timeline_ok r F a dflt codec startNr refT entries :
+(** C03_timeline for the MPD: under the visible hypothesis that the frame duration the MPD code works
+    with is the frame duration [F] of the representation. *)
+Lemma mpd_audio_timeline_ok r F a cdur dflt codec startNr refT entries :
   0 < r -> 0 < F -> 0 < a ->
-  rep_sample_dur dflt codec a = F ->
+  mpd_frame_dur cdur dflt codec a = F ->
   0 <= startNr -> entries <> [] -> Forall (fun e => 0 <= fst e) entries -> 0 <= refT ->
   end_ref refT entries * a + F * r < two64 ->
-  exists l, mpd_audio_timeline startNr refT entries r dflt codec a = Ok l
+  exists l, mpd_audio_timeline startNr refT entries r cdur dflt codec a = Ok l
             /\ expand_s 0 l = map (image r F a) (expand_ref refT entries).
 Proof.
   intros Hr HF Ha E. unfold mpd_audio_timeline. rewrite E. now apply audio_timeline_ok.
 Qed.
 
-(** the hypothesis holds when a default sample duration is signalled or for 48 kHz AAC / AC-3 / E-AC-3 *)
-Lemma rep_sample_dur_cases dflt codec a :
-  (dflt <> 0 -> rep_sample_dur dflt codec a = dflt) /\
-  (dflt = 0 -> codec = 0 -> a = 48000 -> rep_sample_dur dflt codec a = 1024) /\
-  (dflt = 0 -> codec = 1 -> a = 48000 -> rep_sample_dur dflt codec a = 1536) /\
-  (dflt = 0 -> a <> 48000 -> rep_sample_dur dflt codec a = 0).
+(** when the hypothesis holds for the code as it is: a default sample duration equal to the frame
+    duration is signalled, or 48 kHz AAC (1024) / AC-3, E-AC-3 (1536); at other timescales without a
+    signalled default the MPD code has frame duration 0 whatever the measured one is *)
+Lemma mpd_frame_dur_cases cdur dflt codec a :
+  (dflt <> 0 -> mpd_frame_dur cdur dflt codec a = dflt) /\
+  (dflt = 0 -> codec = 0 -> a = 48000 -> mpd_frame_dur cdur dflt codec a = 1024) /\
+  (dflt = 0 -> codec = 1 -> a = 48000 -> mpd_frame_dur cdur dflt codec a = 1536) /\
+  (dflt = 0 -> a <> 48000 -> mpd_frame_dur cdur dflt codec a = 0).
 Proof.
-  unfold rep_sample_dur. repeat split; intros.
+  unfold mpd_frame_dur, rep_sample_dur. repeat split; intros.
   - replace (dflt =? 0) with false by lia. reflexivity.
   - subst. reflexivity.
   - subst. reflexivity.
   - subst. cbn [Z.eqb negb]. replace (a =? 48000) with false by lia. now rewrite !andb_false_r.
 Qed.
 
-(** C03_timeline_sampledur_refuted: AAC with 1024-sample frames at 44.1 kHz, no default sample
-    duration in trex/tfhd (generated asset g2997a441: four video segments of 60060 ticks at 30000):
-    the MPD code divides by zero. *)
+(** C03_timeline_sampledur_refuted: AAC with 1024-sample frames at 44.1 kHz (measured constant sample
+    duration 1024), no default sample duration in trex/tfhd (generated asset g2997a441: four video
+    segments of 60060 ticks at 30000): the MPD code divides by zero. *)
 Lemma timeline_sampledur_refuted_witness :
-  rep_sample_dur 0 0 44100 = 0 /\
-  mpd_audio_timeline 0 0 [(60060, 3)] 30000 0 0 44100
+  mpd_frame_dur 1024 0 0 44100 = 0 /\
+  mpd_audio_timeline 0 0 [(60060, 3)] 30000 1024 0 0 44100
   = Panic "calcAudioTimeFromRef: integer divide by zero (audioFrameDur)".
 Proof. split; vm_compute; reflexivity. Qed.
